@@ -1,0 +1,10 @@
+//go:build !verif
+
+package vm
+
+import (
+	"github.com/paulsonkoly/calc/memory"
+	"github.com/paulsonkoly/calc/types/bytecode"
+)
+
+func verifStep(_ *Type, _ *context, _ *memory.Type, _ int, _ bytecode.Type) {}
